@@ -107,4 +107,7 @@ class Timer:
         self.start()
 
     def _unset_task(self, task: asyncio.Future):
-        self._task = None
+        # A rescheduled timer already holds a new task by the time the
+        # callback of the previous (cancelled) task runs
+        if self._task is task:
+            self._task = None
